@@ -61,13 +61,17 @@ func (s *Sess) sendSecond(st *Stream, kind string, bang bool, msg proto4.Object,
 	case "drop":
 		return "dropped"
 	}
-	if err := st.Send(msg); err != nil {
-		return "io"
-	}
+	// the host may already have answered with an error and closed its end: the send then fails,
+	// but its verdict is still waiting to be read
+	sendErr := st.Send(msg)
 	if bang {
 		return "dropped"
 	}
-	return ErrClass(st.Recv(third))
+	cls := ErrClass(st.Recv(third))
+	if cls == "ok" && sendErr != nil {
+		return "io"
+	}
+	return cls
 }
 
 // early: the host answered the first message with an error, so the renter never got to its second
